@@ -273,6 +273,14 @@ func ReadMappingValues(remainder []byte, map_length Integer) (values *MappingVal
 		}).Warn("Mapping length validation warnings")
 	}
 
+	// Only the declared length belongs to the mapping; whatever follows is
+	// handed back as the remainder (reported above as a warning) instead of
+	// being parsed as further pairs.
+	if declared := map_length.Int(); declared >= 0 && len(remainder) > declared {
+		remainder_bytes = remainder[declared:]
+		remainder = remainder[:declared]
+	}
+
 	var remainder_updated []byte
 	remainder_updated, map_values, errs = parseKeyValuePairs(remainder, map_values, errs)
 	values = &map_values
